@@ -14,7 +14,8 @@ What is abstracted:
 * the binary heap of `union`/`mergedFeatures` is a list of the live children; the heap top is the first
   child with the least value (ties between equal values are not observable: they carry the same key).
 * the tree-index leaf (`treeListIterator`) is the same sorted-list cursor with `EstimateLength` = list
-  length; its pointer structure is C07's model.
+  length; its pointer structure is C07's model.  The compact posting-list leaf (`compact.Iterator`) is the
+  same cursor too; its byte-level model is C08's `B6.Model.Posting`, connected by `Lemmas/SearchPosting.lean`.
 * loops of the Go code run on explicit fuel; running out is the explicit outcome `Err.fuel`
   (`intersection_terminates`, `union_refines` show it never happens when the children behave).
 Go panics are the explicit outcome `Err.panic`; `Value()` is `none` where Go panics or returns nil.
@@ -54,6 +55,7 @@ def estimate (l : Leaf) : Nat :=
   match l.kind with
   | .array => l.xs.length + 1 - l.pos
   | .tree => l.xs.length
+  | .compact => l.xs.length     -- stands in for `(len(i.ids) - i.i) / 3` (bytes); only orders intersections
 
 def ops : IterOps Leaf where
   next l := .ok l.next
@@ -161,6 +163,7 @@ def ops (o : IterOps σ) : IterOps (UnionState σ) where
   advance := advance o
   value := value
   estimate := estimate o
+  dom := o.dom
 
 end Union
 
@@ -254,6 +257,7 @@ def ops (o : IterOps σ) (fuel : Nat) : IterOps (List σ) where
   advance := advance o fuel
   value := value o
   estimate := estimate o
+  dom := o.dom
 
 end Inter
 
@@ -295,6 +299,7 @@ def ops (o : IterOps σ) : IterOps (RangeState σ) where
   advance := advance o
   value st := o.value st.it
   estimate st := o.estimate st.it
+  dom := o.dom
 
 end Range
 
